@@ -248,7 +248,7 @@ def replay(ctx, path):
     cfg = case.get("config", [1, 1]) if isinstance(case, dict) else [1, 1]
     if not line:
         return run(ctx)
-    if line.startswith("L"):
+    if line.startswith("L") or (line.startswith("F") and "|" in line):
         return _c11_life.replay_life(ctx, case)
     exe = ctx.link("c11_barrier", ["c11_barrier.c"], exclude=["barrier/feb.c"])
     res = run_impl(exe, [line], core.qenv(cfg[0], cfg[1], stack=65536), 600, ctx.notes, watchdog=60)
